@@ -378,6 +378,27 @@ def upstreamData (ps : List Plugin) (st : St) (raw : Bytes) : St × Log :=
   | .done y => ({ st with clBuf := st.clBuf ++ [y] }, c.1 ++ [.clQ y])
   | _ => (st, c.1)
 
+/-- `_handle_pipeline_data` looped by `on_client_data` over one read: `raw` are the
+    bytes still to handle, `more` lists, for every request that completes in
+    them, the request and the bytes that follow it (`[]` = `raw` does not complete
+    a request: it stays in the pipeline parser).  Every complete request runs
+    through the `handle_client_request` chain and is forwarded in turn; an
+    exception ends the loop; after a forwarded upgrade request the rest of the read
+    is passed on raw. -/
+def pipeline (cfg : Cfg) (ps : List Plugin) : St → Bytes → List (Req × Bytes) → St × Log
+  | st, raw, [] => if st.upgraded then (st, [.upQ raw]) else (st, [])
+  | st, raw, (r, rest) :: more =>
+    if st.upgraded then (st, [.upQ raw])
+    else if rest.isEmpty || (follow cfg ps st r).1.closing || (follow cfg ps st r).1.down then follow cfg ps st r
+    else ((pipeline cfg ps (follow cfg ps st r).1 rest more).1,
+          (follow cfg ps st r).2 ++ (pipeline cfg ps (follow cfg ps st r).1 rest more).2)
+
+/-- `HttpProxyPlugin.on_client_data(raw)` -/
+def clientData (cfg : Cfg) (ps : List Plugin) (st : St) (raw : Bytes) (more : List (Req × Bytes)) : St × Log :=
+  if !st.upstream then noUpstreamData ps st raw
+  else if st.tunnel then (st, [.upQ raw])
+  else pipeline cfg ps st raw more
+
 /-- reads torn down with the client still able to receive: what is pending is
     written out, then `handle_events` returns True -/
 def drain (st : St) : St × Log :=
@@ -385,13 +406,16 @@ def drain (st : St) : St × Log :=
 
 inductive Ev
   /-- the first request is complete, was recognised as a proxy request and is handed
-      to `HttpProxyPlugin.on_request_complete`; `ok` = the upstream connect succeeds -/
-  | first (r : Req) (ok : Bool)
+      to `HttpProxyPlugin.on_request_complete`; `ok` = the upstream connect succeeds;
+      `rest` = bytes of the same read after the end of the request (handed to
+      `on_client_data` when `on_request_complete` returned False), `more` = the
+      requests completing in `rest`, as for `cdata` -/
+  | first (r : Req) (ok : Bool) (rest : Bytes) (more : List (Req × Bytes))
   /-- the first request is complete but is answered 400 before any plugin exists -/
   | first400
-  /-- client bytes `raw` after the first request; `parsed` = the request the
-      pipeline parser completes with these bytes, if it does -/
-  | cdata (raw : Bytes) (parsed : Option Req)
+  /-- client bytes `raw` after the first request; `more` = for every request the
+      pipeline parser completes within these bytes: the request and the bytes after it -/
+  | cdata (raw : Bytes) (more : List (Req × Bytes))
   | udata (raw : Bytes)
   | ueof
   /-- the client half-closes (it still reads) -/
@@ -402,21 +426,19 @@ inductive Ev
   | flush
 
 def step (cfg : Cfg) (ps : List Plugin) (st : St) : Ev → St × Log
-  | .first r ok =>
+  | .first r ok rest more =>
     if st.down || st.closing || st.dispatched then (st, [])
-    else firstStep cfg ps st r ok
+    else if rest.isEmpty || (firstStep cfg ps st r ok).1.closing || (firstStep cfg ps st r ok).1.down then
+      firstStep cfg ps st r ok
+    else ((clientData cfg ps (firstStep cfg ps st r ok).1 rest more).1,
+          (firstStep cfg ps st r ok).2 ++ (clientData cfg ps (firstStep cfg ps st r ok).1 rest more).2)
   | .first400 =>
     if st.down || st.closing || st.dispatched then (st, [])
     else tearReq { st with clBuf := st.clBuf ++ [Px.Gen.pkt_BAD_REQUEST_RESPONSE_PKT] }
            [.clQ Px.Gen.pkt_BAD_REQUEST_RESPONSE_PKT]
-  | .cdata raw parsed =>
+  | .cdata raw more =>
     if st.down || st.closing || !st.dispatched then (st, [])
-    else if !st.upstream then noUpstreamData ps st raw
-    else if st.tunnel then (st, [.upQ raw])
-    else if st.upgraded then (st, [.upQ raw])
-    else match parsed with
-      | none => (st, [])
-      | some r => follow cfg ps st r
+    else clientData cfg ps st raw more
   | .udata raw =>
     if st.down || !st.upstream then (st, [])
     else upstreamData ps st raw
